@@ -114,6 +114,31 @@ func fumptFix(src []byte, m modSpec) ([]byte, int, error) {
 }
 
 // stripHeader removes everything before the package clause.
+// ownDeclsOnly: the second generator's file holds, for a set of type names that includes T, exactly
+// "var Other_<N>_g2 = 1" and "func deferredHelper_<N>_g2() {}" once each and nothing else.
+func ownDeclsOnly(decls []string) bool {
+	vars, helpers := map[string]int{}, map[string]int{}
+	for _, d := range decls {
+		switch {
+		case strings.HasPrefix(d, "var Other_") && strings.HasSuffix(d, "_g2 = 1"):
+			vars[strings.TrimSuffix(strings.TrimPrefix(d, "var Other_"), "_g2 = 1")]++
+		case strings.HasPrefix(d, "func deferredHelper_") && strings.HasSuffix(d, "_g2() {}"):
+			helpers[strings.TrimSuffix(strings.TrimPrefix(d, "func deferredHelper_"), "_g2() {}")]++
+		default:
+			return false
+		}
+	}
+	if vars["T"] != 1 || len(vars) != len(helpers) {
+		return false
+	}
+	for n, k := range vars {
+		if k != 1 || helpers[n] != 1 {
+			return false
+		}
+	}
+	return true
+}
+
 func stripHeader(src []byte) []byte {
 	fset := token.NewFileSet()
 	f, err := parser.ParseFile(fset, "x.go", src, parser.PackageClauseOnly|parser.ParseComments)
@@ -284,8 +309,13 @@ func checkBatch(c *core.Ctx, mi int, items []Item) {
 		runs = append(runs, byType2)
 	}
 	for ri, bt := range runs {
-		o := pipe.Exec(pipe.Spec{Dir: dir, Entrypoints: []string{"./p/..."}, Globals: map[string][]string{"gengo:g1": {"true"}},
-			Gens: []pipe.GenScript{{Name: "g1", ByType: bt}}})
+		// a second generator runs BEFORE g1 in every package and registers a Defer callback that renders a
+		// helper at the end of ITS file: nothing of it may show up in g1's file
+		o := pipe.Exec(pipe.Spec{Dir: dir, Entrypoints: []string{"./p/..."}, Globals: map[string][]string{"gengo:g1": {"true"}, "gengo:g2": {"true"}},
+			Gens: []pipe.GenScript{
+				{Name: "g2", Default: pipe.Action{Render: "var Other_$T_$G = 1\n", Defers: []pipe.Action{{Render: "func deferredHelper_$T_$G() {}\n"}}}},
+				{Name: "g1", ByType: bt},
+			}})
 		c.Trans(1)
 		c.Trace(1)
 		if o.LoadErr != "" || o.Panic != "" {
@@ -336,6 +366,12 @@ func checkBatch(c *core.Ctx, mi int, items []Item) {
 				c.Nontrivial(fmt.Sprint(mi, it))
 			}
 			judgeFile(c, cs, m, "g1", name, src, frags, resolveImports(importSets[it.Imports], m), what)
+			// the other generator's file: exactly its own declaration and its deferred helper
+			if src2, err := os.ReadFile(dir + "/p/" + name + "-dir/zz_generated.g2.go"); err != nil {
+				c.Fail("", cs, "the second generator's file is missing: %v", err)
+			} else if d, _, err := flatten(stripHeader(src2)); err != nil || !ownDeclsOnly(d) {
+				c.Fail("", cs, "%s: the file of the second generator (per type one declaration + one deferred helper) holds %v (err=%v)", what, d, err)
+			}
 		}
 	}
 }
